@@ -43,6 +43,7 @@ type fnCtx struct {
 	edges    map[[2]int]string
 	allowed  map[string][]string
 	keyed    map[loopKeyRes][]Clause
+	callOcc  map[*ssa.Call]int
 	env      *SpecEnv // for invariants (top-level function only)
 }
 
